@@ -30,7 +30,18 @@ def run(rep, progs, tier):
     rep.rule("C05.invariant", "at every iteration boundary: loop_state Idling <=> idle outstanding, WaitingForCommandReply <=> request outstanding")
     rep.trusted = ["rustc MIR construction and callee resolution", "mpdfacts exporter", "tokio select!/timeout/mpsc/oneshot semantics as modelled",
                    "MPD idle rules (protocol reference)"]
+    rep.rule("C05.one-line", "imported from C07 (owner of the encoder): one request = one protocol line — name alphabet, list framing words, "
+             "argument LF check; the wire states of the discipline count requests, so a request that is two lines is two requests outstanding")
+    rep.rule("C05.segmentation", "imported from C02: only streaming combinators in the line parser (a reply cut at any byte is 'need more'; a spurious parse "
+             "error makes the loop write while the reply is still in flight)")
     for cfg, prog in progs.items():
+        from .C02 import streaming_rule
+        from .C07 import arg_rules, name_rules
+        with rep.importing("C07.", "C05.one-line."):
+            name_rules(rep, prog, cfg)
+            arg_rules(rep, prog, cfg)
+        with rep.importing("C02.streaming", "C05.segmentation"):
+            streaming_rule(rep, prog, cfg)
         complete_write_rule(rep, prog, cfg)
         res = analyse(prog)
         if res is None or res["iteration"] is None:
